@@ -709,9 +709,19 @@ impl World {
     /// connection channel. Returns false if the packet is not applicable in this state.
     fn inject(&mut self, p: &Pkt, rec: &mut StepRecord) -> bool {
         let Some((bytes, peer_idx)) = self.build(p) else { return false };
-        let Some(msg) = UtpMessage::deserialize(&bytes) else {
-            // the socket dispatcher would drop it: nothing reaches the connection
-            return true;
+        let parsed = std::panic::catch_unwind(|| UtpMessage::deserialize(&bytes));
+        let msg = match parsed {
+            Err(_) => {
+                // the socket dispatcher task would have panicked: the whole socket is dead
+                rec.panicked = Some("UtpMessage::deserialize panicked on a datagram (in the socket dispatcher this kills every connection)".into());
+                self.done = Some(Err("panic in datagram parser".into()));
+                return true;
+            }
+            Ok(None) => {
+                // the socket dispatcher would drop it: nothing reaches the connection
+                return true;
+            }
+            Ok(Some(m)) => m,
         };
         let (h, plen) = ref_parse_message(&bytes).expect("reference parser must accept what the library accepts");
         // peer bookkeeping: what it has acknowledged so far
